@@ -45,7 +45,17 @@ pub enum Op {
     Forge { priv_used: usize, claimed: usize, recipient: usize, plain: Plain, chunking: Vec<usize> },
     /// reference-forged file from public data only: ephemeral (and optionally the claimed static
     /// key) is a small-order point, the corresponding DH results are taken to be zero
-    ForgeZero { point: usize, high_bit: bool, claimed_small: bool, claimed: usize, recipient: usize, plain: Plain },
+    ForgeZero {
+        point: usize,
+        high_bit: bool,
+        claimed_small: bool,
+        claimed: usize,
+        recipient: usize,
+        plain: Plain,
+        /// the forger is the claimed party itself: ss is the real static-static secret, only es is zero
+        #[serde(default)]
+        insider: bool,
+    },
     /// header of file `a` with field `field` (1 ephemeral, 2 encrypted static, 3 encrypted payload)
     /// or the whole chunk stream (4) taken from file `b`
     Recombine { a: usize, b: usize, field: usize },
@@ -177,7 +187,10 @@ impl Family for A4 {
                         let m = 1 + rng.usize_below(64); let chunking = crate::gen::gen_chunking(rng, p.len, m);
                         Op::Forge { priv_used: rng.usize_below(4), claimed: rng.usize_below(4), recipient: rng.usize_below(4), plain: p, chunking }
                     }
-                    7 => Op::ForgeZero { point: rng.usize_below(7), high_bit: rng.chance(1, 3), claimed_small: rng.chance(1, 2), claimed: rng.usize_below(4), recipient: rng.usize_below(4), plain: plain(rng) },
+                    7 => {
+                        let insider = rng.chance(1, 3);
+                        Op::ForgeZero { point: rng.usize_below(7), high_bit: rng.chance(1, 3), claimed_small: !insider && rng.chance(1, 2), claimed: rng.usize_below(4), recipient: rng.usize_below(4), plain: plain(rng), insider }
+                    }
                     8..=9 if nfiles >= 2 => {
                         let a = rng.usize_below(nfiles);
                         let mut b = rng.usize_below(nfiles);
@@ -253,7 +266,7 @@ impl Family for A4 {
                     );
                     files.push(FileFacts { bytes, coherent: Some((keys[*priv_used], pubs[*claimed], pubs[*recipient], pt)), legit_dh: true });
                 }
-                Op::ForgeZero { point, high_bit, claimed_small, claimed, recipient, plain } => {
+                Op::ForgeZero { point, high_bit, claimed_small, claimed, recipient, plain, insider } => {
                     let pt = plain.bytes();
                     let e_pub = small_order(*point, *high_bit);
                     let mut r = Rng::new(s.entropy_tag ^ (oi as u64) << 8 ^ 0x99);
@@ -265,6 +278,9 @@ impl Family for A4 {
                     }
                     let (cl, ss) = if *claimed_small {
                         (small_order((*point + 3) % 7, false), zero)
+                    } else if *insider {
+                        // the claimed party itself builds the file: the static-static secret is genuine
+                        (pubs[*claimed], rp::x25519(&keys[*claimed], &pubs[*recipient]))
                     } else {
                         // the forger does not know the claimed party's private key: it guesses ss = 0
                         (pubs[*claimed], zero)
